@@ -33,6 +33,8 @@ func main() {
 		timeout = flag.Duration("timeout", 10*time.Minute, "wall budget")
 		solver  = flag.String("solver", "z3 -in", "solver command")
 		verbose = flag.Bool("v", false, "verbose")
+		fresh   = flag.Bool("fresh", false, "non-incremental solver mode")
+		intenc  = flag.Bool("int", false, "integer encoding of bit-vectors")
 		params  multiFlag
 	)
 	flag.Var(&params, "param", "k=v harness parameter")
@@ -51,6 +53,8 @@ func main() {
 	fmt.Fprintf(os.Stderr, "loaded in %v\n", time.Since(t0))
 	e := newEngine(prog, pkg, strings.Fields(*solver))
 	e.maxPaths = *maxP
+	e.solverFresh = *fresh
+	e.solverInt = *intenc
 	e.deadline = time.Now().Add(*timeout)
 	for _, p := range params {
 		kv := strings.SplitN(p, "=", 2)
